@@ -59,9 +59,15 @@ func DetectDeviceConfigChanges(ctx context.Context) <-chan bool {
 					return
 				}
 				if event.Op&fsnotify.Create != 0 {
-					// a sub-directory that appears later is watched from now on
+					// a sub-directory that appears later is watched from now on, with everything below it: a tree that is copied
+					// or unpacked into place has its sub-directories before the watch on its top is armed, no event tells of them
 					if info, err := os.Stat(event.Name); err == nil && info.IsDir() {
-						_ = watcher.Add(event.Name)
+						_ = filepath.WalkDir(event.Name, func(sub string, d fs.DirEntry, err error) error {
+							if err == nil && d.IsDir() {
+								_ = watcher.Add(sub)
+							}
+							return nil
+						})
 					}
 				}
 				if event.Op != fsnotify.Write {
